@@ -306,6 +306,37 @@ class Theorem(Axiom):
             res['num_gaps'] = self.num_gaps
         return res
 
+def get_term_tvars(t):
+    """List of type variables appearing in the types of a term."""
+    res = []
+    def rec(t):
+        if t.is_svar() or t.is_var() or t.is_const():
+            Ts = t.T.get_tvars()
+        elif t.is_comb():
+            rec(t.fun)
+            rec(t.arg)
+            return
+        elif t.is_abs():
+            Ts = t.var_T.get_tvars()
+            rec(t.body)
+        else:
+            return
+        for T in Ts:
+            if T not in res:
+                res.append(T)
+    rec(t)
+    return res
+
+def types_disjoint(T1, T2):
+    """Whether T1 and T2 certainly have no common instance."""
+    if T1.is_tconst() and T2.is_tconst():
+        if T1.name != T2.name or len(T1.args) != len(T2.args):
+            return True
+        return any(types_disjoint(arg1, arg2) for arg1, arg2 in zip(T1.args, T2.args))
+    else:
+        return False
+
+
 class Definition(Item):
     """Definition"""
     def __init__(self):
@@ -339,6 +370,8 @@ class Definition(Item):
             f, args = self.prop.lhs.strip_comb()
             if f != Const(self.name, self.type):
                 raise ItemException("Definition %s: wrong head of lhs" % self.name)
+            if not all(v.is_var() for v in args):
+                raise ItemException("Definition %s: arguments on lhs must be variables" % self.name)
             lhs_vars = set(v.name for v in args)
             rhs_vars = set(v.name for v in self.prop.rhs.get_vars())
             if len(lhs_vars) != len(args):
@@ -347,6 +380,19 @@ class Definition(Item):
                 raise ItemException(
                     "Definition %s: extra variables in rhs: %s" % (
                         self.name, ", ".join(v for v in rhs_vars - lhs_vars)))
+
+            # Type variables on the rhs must appear in the type of the constant
+            extra_tvars = set(get_term_tvars(self.prop.rhs)) - set(self.type.get_tvars())
+            if extra_tvars:
+                raise ItemException(
+                    "Definition %s: extra type variables in rhs: %s" % (
+                        self.name, ", ".join(str(T) for T in extra_tvars)))
+
+            # The constant being defined must not appear on the rhs, except
+            # (for an overloaded constant) at a type disjoint from the one defined
+            if any(c.name == self.name and not types_disjoint(c.T, self.type)
+                   for c in self.prop.rhs.get_consts()):
+                raise ItemException("Definition %s: constant appears in its own definition" % self.name)
 
         except Exception as error:
             self.type = data['type']
